@@ -4,6 +4,7 @@
 package packetdump
 
 import (
+	"errors"
 	"github.com/pion/interceptor"
 )
 
@@ -34,6 +35,8 @@ func (r *ReceiverInterceptorFactory) NewInterceptor(_ string) (interceptor.Inter
 }
 
 // ReceiverInterceptor interceptor dumps outgoing RTP packets.
+var errHeaderExceedsPacket = errors.New("packetdump: RTP header is larger than the packet")
+
 type ReceiverInterceptor struct {
 	interceptor.NoOp
 	*PacketDumper
@@ -54,12 +57,18 @@ func (r *ReceiverInterceptor) BindRemoteStream(
 			if attr == nil {
 				attr = make(interceptor.Attributes)
 			}
-			header, err := attr.GetRTPHeader(bytes)
+			// Only the first i bytes belong to this packet; the rest of the
+			// buffer may hold anything (for instance an older, longer packet).
+			header, err := attr.GetRTPHeader(bytes[:i])
 			if err != nil {
 				return 0, nil, err
 			}
+			headerSize := header.MarshalSize()
+			if headerSize > i {
+				return 0, nil, errHeaderExceedsPacket
+			}
 
-			r.logRTPPacket(header, bytes[header.MarshalSize():i], attr)
+			r.logRTPPacket(header, bytes[headerSize:i], attr)
 
 			return i, attr, nil
 		},
